@@ -324,10 +324,13 @@ func (self *BinaryConv) doRecurse(ctx context.Context, s string, jp int, desc *t
 							return ret, errSyntax(s, jp)
 						}
 						ret = jp
-						if err = self.handleValueMapping(ctx, s, start, ft, p, jp); err != nil {
-							return ret, err
+						// a null member counts as absent here too: it is not handed to the value mapping
+						if s[start:jp] != "null" {
+							if err = self.handleValueMapping(ctx, s, start, ft, p, jp); err != nil {
+								return ret, err
+							}
+							bm.Set(ft.ID(), thrift.OptionalRequireness)
 						}
-						bm.Set(ft.ID(), thrift.OptionalRequireness)
 
 					} else {
 						// normal json mapping
